@@ -496,6 +496,9 @@ class PDPRuinRepairEnv(ImprovementEnvBase):
             visited_time[arange, solution[arange, pre]] = i + 1
             pre = solution[arange, pre]
 
+        # a permutation of the nodes may still consist of several sub-cycles: every node must be reached from the depot
+        assert (visited_time > 0).all(), "Solution is not a single tour through all nodes"
+
         assert (
             visited_time[:, 1 : graph_size // 2 + 1]
             < visited_time[:, graph_size // 2 + 1 :]
